@@ -728,7 +728,8 @@ def add_online_moments(a: np.ndarray, b: np.ndarray, c: np.ndarray) -> None:
         * a["count"]
         * b["count"]
         * (a["count"] ** 2 - a["count"] * b["count"] + b["count"] ** 2)
-        / (c["count"] ** 3)
+        # float: the integer cube overflows int64 from 2**21 samples on
+        / (c["count"].astype(np.float64) ** 3)
     )
     c["m4"][:] += (
         6
